@@ -21,6 +21,14 @@ struct Setup {
     junk32 = &w.add_int(0x2200, 0, 4, false, false, true, true, 0x12345678);
     junkdom = &w.add_domain(0x2201, 0, 50, true, true, 77);
     // mode wide-dictionary: writable objects in the network-variable area and at the top of the index space, 8000h and more indices away from the rest
+    // ... and the SDO client records 1280h.. with COB-ID entries of type CO_TSDO_ID, both still switched off (80000000h, the CiA 301 default), as the
+    // repository's own dictionaries declare them: the application may prepare its client (write a COB-ID that keeps it off) between any two frames of a download
+    if (c.param == 1) for (int k = 0; k < CO_CSDO_N; k++) {
+      s.add(CO_KEY(0x1280 + k, 0, CO_OBJ_D___R_), CO_TUNSIGNED8, 3);
+      s.add(CO_KEY(0x1280 + k, 1, CO_OBJ_____RW), CO_TSDO_ID, (CO_DATA)s.var<uint32_t>("128x:1", 0x80000000u));
+      s.add(CO_KEY(0x1280 + k, 2, CO_OBJ_____RW), CO_TSDO_ID, (CO_DATA)s.var<uint32_t>("128x:2", 0x80000000u));
+      s.add(CO_KEY(0x1280 + k, 3, CO_OBJ_____RW), CO_TUNSIGNED8, (CO_DATA)s.var<uint8_t>("128x:3", (uint8_t)(0x20 + k)));
+    }
     if (c.param == 1) { hi0 = (int)w.objs.size(); w.add_domain(0xA100, 0, c.t.biased(1, 1200, MARKS, 8), true, true, (uint32_t)iv.next()); w.add_int(0xA200, 1, 4, false, true, true, true, (uint32_t)iv.next());
       w.add_int(0xA200, 2, 2, true, false, true, true, (uint32_t)iv.next()); w.add_int(0xFFFE, 0, 1, false, false, true, true, (uint32_t)iv.next()); w.add_int(0x9000, 0, 4, false, false, true, true, (uint32_t)iv.next()); }
     w.finish();
@@ -55,6 +63,14 @@ void case_impl(Ctx &c, bool prefix) {
     s.tx = keep; junk_frames++;
   };
 #endif
+  int client_writes = 0;
+  if (c.param == 1) { auto prev = cl.between; cl.between = [&, prev]() {
+      if (prev) prev();
+      if (!c.t.chance(36)) return;
+      int k = CO_CSDO_N > 1 ? (int)c.t.below(2) : 0; uint8_t sub = (uint8_t)(1 + c.t.below(2)); uint32_t v = 0x80000000u | ((sub == 1 ? 0x600u : 0x580u) + 0x20 + c.t.below(4));
+      s.api_begin(); CO_ERR e = CODictWrLong(&s.node->Dict, CO_DEV(0x1280 + k, sub), v); s.api_end("CODictWrLong");
+      CHECK(c, e == CO_ERR_NONE, "harness", "CODictWrLong(%04Xh:%u, %08X) failed with %d", 0x1280 + k, sub, v, (int)e);
+      VLOG(c, "  (the application writes %08X to %04Xh:%u - its SDO client stays switched off)", v, 0x1280 + k, sub); client_writes++; }; }
   int ntransfers = 1 + (int)c.t.below(c.thorough ? 4 : 3);
   bool nt = false;
   int prefixes = 0;
@@ -127,13 +143,14 @@ void case_impl(Ctx &c, bool prefix) {
     // the second server's own objects may have been changed by its own traffic
     for (TObj *j : {S.junk32, S.junkdom}) { size_t off = w.snap_off(*j); for (uint32_t i = 0; i < j->size; i++) expect[off + i] = after[off + i]; }
 #endif
+    if (client_writes) { size_t off = s.ndict * 8; for (auto &b : s.blocks) { if (!b.storage) continue; if (b.name.rfind("128x", 0) == 0) memcpy(&expect[off], b.p, b.n); off += b.n; } }   // what the application wrote to its own client record meanwhile
     std::string d = s.diff_snapshot(expect, after);
     CHECK(c, d.empty(), wrong_len ? "refusal-changes-nothing" : "object-equals-payload",
           "after the %s %s download of %u bytes to %04X:%02X (object size %u): %s", wrong_len ? "refused" : "confirmed", modename, plen, o.idx, o.sub, o.size, d.c_str());
     c.ops += r.requests;
   }
   if (junk_frames) { nt = true; c.cls("second-server-interleaved"); }
-  if (prefixes) c.cls("previous-transfer-ended-by-server-toggle-abort");
+  if (prefixes) c.cls("previous-transfer-ended-by-server-toggle-abort"); if (client_writes) c.cls("application-prepared-its-sdo-client-between-two-frames");
   c.nontrivial = nt;
 }
 
